@@ -421,9 +421,17 @@ impl ProtocolSet {
             })
             .collect::<FuturesUnordered<_>>();
 
+        // A closed receiver means that the protocol has shut down (e.g., the user dropped its
+        // handle). This must not prevent the remaining protocols from learning about the
+        // connection, nor fail the connection after some of them were already notified.
         while !futures.is_empty() {
             if let Some(Err(error)) = futures.next().await {
-                return Err(error.into());
+                tracing::debug!(
+                    target: LOG_TARGET,
+                    ?peer,
+                    ?error,
+                    "failed to report connection established to a protocol that has exited",
+                );
             }
         }
 
